@@ -220,13 +220,29 @@ def _constructed_scalings(prog):
     return _scaling_classes(prog)
 
 
+def find_scale_evaluator(ctx):
+    """the evaluator of the scale graph, found by what it is: the function of nptdms.scaling that calls itself and calls .scale(...)"""
+    from .region import call_targets
+    prog = ctx.prog
+    evaluators = [f for f in sorted(prog.functions.values(), key=lambda f: f.qual) if f.module.name == "scaling" and
+                  any(isinstance(c, ast.Call) and isinstance(c.func, ast.Attribute) and c.func.attr == "scale" for c in walk_body(f.node)) and
+                  any(isinstance(c, ast.Call) and f.qual in call_targets(ctx, f, c) for c in walk_body(f.node))]
+    if not evaluators:
+        # not recursive (any more): the function that calls both .scale(...) and .scale_daqmx(...) of the scalings
+        evaluators = [f for f in sorted(prog.functions.values(), key=lambda f: f.qual) if f.module.name == "scaling" and all(
+            any(isinstance(c, ast.Call) and isinstance(c.func, ast.Attribute) and c.func.attr == m for c in walk_body(f.node)) for m in ("scale", "scale_daqmx"))]
+    if not evaluators:
+        raise AnchorMissing("scaling: evaluator that calls .scale(...) of the scalings")
+    return evaluators[0]
+
+
 @rule("SD1", "every scaling class is routed to a call whose arity and operand order match its scale method", floor=14)
 def sd1(ctx, R):
     from .sem import instance_attrs, method_of, leaves, flat_conds, match, W, module_region, keyed_constructions
     from .sym import Sym, show
     prog = ctx.prog
     classes = _constructed_scalings(prog)
-    cs = prog.func("scaling.MultiScaling._compute_scaled_data")
+    cs = find_scale_evaluator(ctx)
     for ci in sorted(classes, key=lambda c: c.qual):
         where = "%s:%d" % (ci.module.relpath, ci.node.lineno)
         attrs = set(instance_attrs(prog, ci))
@@ -251,20 +267,36 @@ def sd1(ctx, R):
                         "cannot route it")
     # the evaluator in normal form: a conditional value whose leaves are the raw data, the DAQmx scaler selection, and
     # scale calls fed by recursive evaluations of the matching input sources, in order
-    ps = [p for p in cs.params if p != "self"]
-    if len(ps) < 2:
-        raise AnchorMissing("scaling.MultiScaling._compute_scaled_data: (scale index, raw data) parameters")
-    idx, raw = ("param", ps[0]), ("param", ps[1])
-    S = ("sub", ("self", "scalings"), idx)
     v = Sym(prog, cs, cs.cls).function_value()
     if v[0] == "opaque":
-        raise AnchorMissing("scaling.MultiScaling._compute_scaled_data: body not in normal form")
+        raise AnchorMissing("%s: body not in normal form" % cs.qual)
     lv = leaves(v)
-
-    def rec(src):
-        return ("call", cs.qual, (("attr", S, src), raw), ())
-    seen = {"base": False, "daqmx": False, "unary": False, "binary": False}
     RAW = prog.try_fold(prog.module("scaling").assigns.get("RAW_DATA_INPUT_SOURCE"), prog.module("scaling"))
+    # roles: the scale index is the parameter compared with the raw-data marker; the raw data is what `.data` of is returned then;
+    # the scaling is the receiver of the scale calls
+    idx = raw = S = None
+    for conds, leaf in lv:
+        b = match(("method", W("m", lambda m: m in ("scale", "scale_daqmx")), W("recv"), W(), W()), leaf)
+        if b is not None and b["recv"][0] == "sub" and b["recv"][2][0] == "param":
+            S, idx = b["recv"], b["recv"][2]
+    if S is None:
+        raise AnchorMissing("%s: scale call on <scalings>[<parameter>]" % cs.qual)
+    for conds, leaf in lv:
+        if leaf[0] == "attr" and leaf[2] == "data" and any(c in (("cmp", "==", idx, ("const", 0xFFFFFFFF)), ("cmp", "==", ("const", 0xFFFFFFFF), idx))
+                                                           for c in flat_conds(conds)):
+            raw = leaf[1]
+    if raw is None:
+        # no base case here: take the raw data to be what the DAQmx scalers read their scaler data from
+        for conds, leaf in lv:
+            b = match(("method", "scale_daqmx", S, (("attr", W("raw"), "scaler_data"),), W()), leaf)
+            if b is not None:
+                raw = b["raw"]
+
+    def is_rec(a, src):
+        """the recursive evaluation of the scaling's input source `src` (with or without the raw data passed along)"""
+        b = match(("call", cs.qual, W("args"), W()), a)
+        return b is not None and b["args"] and b["args"][0] == ("attr", S, src) and b["args"][1:] in ((), (raw,))
+    seen = {"base": False, "daqmx": False, "unary": False, "binary": False}
     for conds, leaf in lv:
         fc = flat_conds(conds)
         if leaf == ("attr", raw, "data"):
@@ -284,11 +316,11 @@ def sd1(ctx, R):
             args = b["args"]
             if len(args) == 1:
                 seen["unary"] = True
-                R.check(args[0] == rec("input_source"), "scaling.MultiScaling._compute_scaled_data::unary", cs.where(),
+                R.check(is_rec(args[0], "input_source"), "scaling.MultiScaling._compute_scaled_data::unary", cs.where(),
                         "scale(input computed from scaling.input_source)", "unary scale is fed from `%s`" % show(args[0])[:140])
             elif len(args) == 2:
                 seen["binary"] = True
-                R.check(args == (rec("left_input_source"), rec("right_input_source")), "scaling.MultiScaling._compute_scaled_data::binary", cs.where(),
+                R.check(is_rec(args[0], "left_input_source") and is_rec(args[1], "right_input_source"), "scaling.MultiScaling._compute_scaled_data::binary", cs.where(),
                         "scale(left from left_input_source, right from right_input_source)",
                         "binary scale operands are `%s` (expected left, right in this order: Subtract is not commutative)" % ", ".join(show(a) for a in args)[:200])
             else:
@@ -305,11 +337,14 @@ def sd1(ctx, R):
     # the output is the last scale, for data and for dtype alike
     sy0 = Sym(prog, cs, cs.cls)
     last = sy0._binop("-", ("len", ("self", "scalings")), ("const", 1))
-    for q, inner in (("scaling.MultiScaling.scale", "scaling.MultiScaling._compute_scaled_data"),
+    for q, inner in (("scaling.MultiScaling.scale", cs.qual),
                      ("scaling.MultiScaling.get_dtype", "scaling.MultiScaling._compute_scale_dtype")):
         f = prog.func(q)
         val = Sym(prog, f, f.cls, stack=(inner,)).function_value()
         b = match(("call", inner, W("args"), W()), val)
+        if b is None:
+            # the evaluator is a method of a helper object built here:  Evaluation(self.scalings, raw).output_of(last)
+            b = match(("method", inner.split(".")[-1], W(), W("args"), W()), val)
         ok = b is not None and b["args"] and b["args"][0] == last
         R.check(ok, q + "::final scale", f.where(), "output is scale len(scalings) - 1",
                 "the output scale is `%s`, not the last scale" % (show(b["args"][0])[:80] if b and b["args"] else show(val)[:80]))
@@ -319,9 +354,12 @@ def sd1(ctx, R):
     expected = {"Polynomial": "PolynomialScaling", "Linear": "LinearScaling", "RTD": "RtdScaling", "Strain": "StrainScaling",
                 "Table": "TableScaling", "Thermistor": "ThermistorScaling", "Thermocouple": "ThermocoupleScaling", "Add": "AddScaling",
                 "Subtract": "SubtractScaling", "AdvancedAPI": "NoOpScaling"}
-    for k, v in expected.items():
-        R.check(pairs.get(k) == v, "scaling._get_channel_scaling::%s" % k, gcs.where(), "%s -> %s" % (k, v),
-                "scale type %r is built by %s (expected %s)" % (k, pairs.get(k), v))
+    if not pairs:
+        R.unrecognised("scaling._get_channel_scaling::dispatch", gcs.where(), "how scale type names select the scaling classes was not recognised")
+    else:
+        for k, v in expected.items():
+            R.check(pairs.get(k) == v, "scaling._get_channel_scaling::%s" % k, gcs.where(), "%s -> %s" % (k, v),
+                    "scale type %r is built by %s (expected %s)" % (k, pairs.get(k), v))
 
 
 @rule("NS1", "the number of scales is the declared count, else the highest NI_Scale index + 1", floor=2)
